@@ -19,6 +19,18 @@ func init() {
 
 const floatCaveat = "that evaluating the extracted term in IEEE-754 double arithmetic and passing it through the rounding helper yields the same tenth as exact arithmetic for every input (needs the numbers; static analysis in this family does not evaluate them)"
 
+// objectIntegrity: the fields the equation reads are written only by their own
+// level's decodeOne and constructor (Ver: by the v3 Decodes), so the state a
+// Score function sees is the state the decoder produced - whichever decoder
+// produced it and whatever was queried in between.
+func (e *Env) objectIntegrity(v *spec.Version) {
+	ls, err := e.F.Levels(v)
+	if err != nil {
+		return
+	}
+	e.writeOwnership(v, ls)
+}
+
 func scoreBoiler(e *Env) {
 	c := e.C
 	c.Level = "other"
@@ -95,6 +107,7 @@ func c01(e *Env) {
 	})
 	e.weightObligations(&spec.V3, "AV", "AC", "PR", "UI", "S", "C", "I", "A")
 	e.viewObligations(k, "same-object")
+	e.objectIntegrity(&spec.V3)
 }
 
 // zeroImpactFacts: in the three impact tables weight 0 belongs to code N only and every weight is < 1.
@@ -163,6 +176,7 @@ func c02(e *Env) {
 	})
 	e.weightObligations(&spec.V3, "E", "RL", "RC")
 	e.constructorDefaults(k.level("Temporal"), "constructor-default")
+	e.objectIntegrity(&spec.V3)
 }
 
 // ---------------------------------------------------------------------------
@@ -185,6 +199,7 @@ func c03(e *Env) {
 	e.weightObligations(&spec.V3, "AV", "AC", "PR", "UI", "S", "C", "I", "A", "E", "RL", "RC", "CR", "IR", "AR", "MAV", "MAC", "MPR", "MUI", "MS", "MC", "MI", "MA")
 	e.constructorDefaults(k.level("Environmental"), "constructor-default")
 	e.versionTables()
+	e.objectIntegrity(&spec.V3)
 }
 
 func (e *Env) termV3Base(k *scoreKit) bool {
@@ -278,6 +293,7 @@ func c04(e *Env) {
 		k.validChain("valid-chain")
 	})
 	e.weightObligations(&spec.V2, "AV", "AC", "Au", "C", "I", "A", "E", "RL", "RC")
+	e.objectIntegrity(&spec.V2)
 }
 
 func (e *Env) termV2BaseTemporal(k *scoreKit, report bool) {
@@ -335,6 +351,7 @@ func c05(e *Env) {
 		k.validChain("valid-chain")
 	})
 	e.weightObligations(&spec.V2, "AV", "AC", "Au", "C", "I", "A", "E", "RL", "RC", "CDP", "TD", "CR", "IR", "AR")
+	e.objectIntegrity(&spec.V2)
 }
 
 func (e *Env) termV2Env(k *scoreKit, report bool) {
